@@ -9,6 +9,7 @@ import os
 
 import vlib
 from vlib import gZ, gbool, glist
+from props import c19_prims
 
 PID = 'C19'
 COQ_DIRS = ['common', 'C19']
@@ -182,6 +183,27 @@ def gen_cases(rng, tier, ctx):
             t = rng.choice([0, 100, sum(c) - 1, sum(c) - 192, sum(x for x, y in zip(c, r) if y > 0) - 16])
             t = max(t, 0)
         cases.append(_mk(h, r, c, t, nh, nl, dtype=rng.choice(['drv', 'drv64'])))
+    # ---- the second copy of the placement (feature_awg/tabor.py::TaborChannelTuple._find_place_for_segments_in_memory):
+    # unstable default sort, MemoryError instead of RuntimeError; distinct capacities / lengths in about half of the cases
+    for _ in range(300 if not thorough else 8000):
+        if rng.random() < 0.5:
+            h, r, c, t, nh, nl = _rand_place(rng, 7, 5, hp, cp, lp[:6], [0, 0, 0, 1, 1, 2, 3])
+        else:
+            n, m = rng.randint(0, 7), rng.randint(0, 5)
+            c = rng.sample([16 * k for k in range(12, 40)], n)
+            h = [rng.choice(hp) for _ in range(n)]
+            r = [rng.choice([0, 0, 0, 1, 1, 2]) for _ in range(n)]
+            pool = sorted(set([16 * k for k in range(11, 42)] + c))
+            nl = rng.sample(pool, m)
+            nh = [rng.choice(hp + [100, 101, 102, 103]) for _ in range(m)]
+            t = rng.choice(_totals(rng, r, c, nh, nl, h))
+        if rng.random() < 0.2:
+            t = max(rng.choice([0, 100, sum(c) - 1, sum(c) - 192, sum(x for x, y in zip(c, r) if y > 0) - 16]), 0)
+        cases.append(dict(_mk(h, r, c, t, nh, nl, dtype=rng.choice(['drv', 'drv64'])), impl='feature'))
+    # ---- numpy primitives on numpy itself
+    cases.extend(c19_prims.gen(rng, thorough))
+    # ---- layouts of the completely swept scopes (3,2) and (2,3) that the python oracle rejected (thorough tier)
+    cases.extend(ctx.get('c19_sweep_rejected', []))
     # ---- histories driven through the real driver bookkeeping (fake instrument)
     n_hist = 400 if not thorough else 8000
     cases.append({'kind': 'hist', 'total': 100000, 'ops': [
@@ -190,7 +212,59 @@ def gen_cases(rng, tier, ctx):
         ['upload', 2, [[16, 192]], False], ['free', 9], ['cleanup'], ['clear']]})
     for _ in range(n_hist):
         cases.append(_rand_hist(rng))
+    # the same kind of histories through the second driver (feature_awg/tabor.py)
+    for _ in range(n_hist // 2):
+        cases.append(dict(_rand_hist(rng), driver='feature'))
+    cases.append({'kind': 'hist', 'driver': 'feature', 'total': 2000, 'ops': [
+        ['upload', 1, [[11, 208], [15, 400], [26, 256], [4, 192]], True], ['upload', 1, [[11, 208], [25, 400], [23, 384]], True]]})
     return cases
+
+
+def pregen(ctx):
+    """thorough tier: the scopes (slots, new) = (3,2) and (2,3) are swept COMPLETELY (one boundary total per layout)
+    against the python oracle of the four clauses; rejected layouts are handed to gen_cases and go through Coq."""
+    if ctx.get('tier') != 'thorough':
+        return []
+    import random
+    import time
+    rng = random.Random(ctx.get('seed', 0) or 0)
+    t0 = time.time()
+    n, rejected = sweep_scopes([(3, 2), (2, 3)], rng)
+    ctx['c19_sweep_rejected'] = rejected[:50]
+    return [{'name': 'sweep_small_scopes_3x2_2x3_python_oracle', 'ok': True,
+             'detail': '%d layouts (complete), %d rejected by the python oracle of the four clauses, %.0f s'
+                       % (n, len(rejected), time.time() - t0)}]
+
+
+def sweep_scopes(scopes, rng, limit=None):
+    import warnings
+    import numpy as np
+    from qupulse._program.tabor import find_place_for_segments_in_memory
+    n = 0
+    rejected = []
+    for nslots, nnew in scopes:
+        for hashes, refs, caps, nh, nl in _small_scope(nslots, nnew):
+            total = rng.choice(_totals(rng, refs, caps, nh, nl, hashes))
+            case = _mk(hashes, refs, caps, total, nh, nl)
+            try:
+                with warnings.catch_warnings():
+                    warnings.simplefilter('ignore')
+                    w2s, ta, ti = find_place_for_segments_in_memory(
+                        current_segment_hashes=np.asarray(hashes, dtype=np.int64),
+                        current_segment_references=np.asarray(refs, dtype=np.int64),
+                        current_segment_capacities=np.asarray(caps, dtype=np.int64), total_capacity=total,
+                        new_segment_hashes=np.asarray(nh, dtype=np.int64), new_segment_lengths=np.asarray(nl, dtype=np.int64))
+                obs = {'ret': [w2s.tolist(), ta.tolist(), ti.tolist()]}
+            except RuntimeError:
+                obs = {'refused': 'other'}
+            except Exception as e:
+                obs = {'crash': repr(e)}
+            n += 1
+            if 'crash' in obs or clauses(case, obs):
+                rejected.append(case)
+            if limit and n >= limit:
+                return n, rejected
+    return n, rejected
 
 
 SEG_LEN = {h: [192, 208, 224, 384, 192, 400, 256, 208, 1024, 192][h % 10] for h in range(1, 31)}
@@ -264,7 +338,16 @@ def run_impl(case):
         from props import c19_driver
         try:
             with vlib.time_limit(20):
-                return {'steps': c19_driver.run_history(case['total'], case['ops'])}
+                return {'steps': c19_driver.run_history(case['total'], case['ops'], driver=case.get('driver', 'awgs'))}
+        except vlib.Timeout:
+            return {'hang': True}
+        except Exception as e:
+            return {'crash': '%s: %s' % (type(e).__name__, e)}
+    if case['kind'] == 'prim':
+        try:
+            with vlib.time_limit(10), warnings.catch_warnings():
+                warnings.simplefilter('ignore')
+                return c19_prims.run(case)
         except vlib.Timeout:
             return {'hang': True}
         except Exception as e:
@@ -275,14 +358,24 @@ def run_impl(case):
     try:
         with vlib.time_limit(10), warnings.catch_warnings():
             warnings.simplefilter('ignore')
-            w2s, ta, ti = find_place_for_segments_in_memory(
-                current_segment_hashes=hashes, current_segment_references=refs, current_segment_capacities=caps,
-                total_capacity=case['total'], new_segment_hashes=nh, new_segment_lengths=nl)
+            if case.get('impl') == 'feature':
+                import types
+                from props import c19_driver
+                F = c19_driver.load_feature_module()
+                me = types.SimpleNamespace(_segment_hashes=hashes, _segment_references=refs, _segment_capacity=caps,
+                                           total_capacity=case['total'], _free_points_in_total=0, _free_points_at_end=0)
+                w2s, ta, ti = F.TaborChannelTuple._find_place_for_segments_in_memory(
+                    me, [c19_driver.Seg(int(h), int(l)) for h, l in zip(case['new_hashes'], case['new_lens'])],
+                    np.asarray(case['new_lens'], dtype=np.uint32 if case.get('dtype') == 'drv' else np.int64))
+            else:
+                w2s, ta, ti = find_place_for_segments_in_memory(
+                    current_segment_hashes=hashes, current_segment_references=refs, current_segment_capacities=caps,
+                    total_capacity=case['total'], new_segment_hashes=nh, new_segment_lengths=nl)
         obs = {'ret': [[int(x) for x in np.asarray(w2s).tolist()], [bool(x) for x in np.asarray(ta).tolist()],
                        [int(x) for x in np.asarray(ti).tolist()]]}
     except vlib.Timeout:
         return {'hang': True}
-    except RuntimeError as e:
+    except (RuntimeError, MemoryError) as e:      # the feature driver's copy raises MemoryError
         msg = ' '.join(str(a) for a in e.args)
         if 'ragmentation' in msg:
             obs = {'refused': 'Fragmentation'}
@@ -330,13 +423,15 @@ def to_coq(case, obs):
         return 'CCrash'
     if case['kind'] == 'hist':
         return '(CHist %s %s %s)' % (gZ(case['total']), glist(_g_op, case['ops']), glist(_g_step, obs['steps']))
+    if case['kind'] == 'prim':
+        return c19_prims.to_coq(case, obs)
     if 'ret' in obs:
         w, a, i = obs['ret']
         impl = '(IRet %s %s %s)' % (_zl(w), glist(gbool, a), _zl(i))
     else:
         k = obs['refused']
         impl = '(IRefuse %s)' % ('None' if k == 'other' else '(Some %s)' % k)
-    return '(CPlace %s %s %s %s %s %s %s %s)' % (_zl(case['hashes']), _zl(case['refs']), _zl(case['caps']),
+    return '(%s %s %s %s %s %s %s %s %s)' % ('CPlaceF' if case.get('impl') == 'feature' else 'CPlace', _zl(case['hashes']), _zl(case['refs']), _zl(case['caps']),
                                                  gZ(case['total']), _zl(case['new_hashes']), _zl(case['new_lens']),
                                                  impl, gbool(obs.get('inputs_unchanged', False)))
 
@@ -444,10 +539,14 @@ def py_spec(case, obs):
         return 'implementation crashed: %r' % (obs,)
     if case['kind'] == 'hist':
         return hist_safe(case, obs) or hist_capacity(case, obs)
+    if case['kind'] == 'prim':
+        return None             # the primitives' specification is Corr.prim_spec (evaluated in Coq)
     return clauses(case, obs)
 
 
 def nontrivial(case, obs):
+    if case['kind'] == 'prim':
+        return len(case.get('a', case.get('data', case.get('m', case.get('r', case.get('w', [])))))) >= 2
     if case['kind'] == 'hist':
         return 'steps' in obs and any(len(st['progs']) >= 1 and len(st['hashes']) >= 3 for st in obs['steps'])
     unknown = any(h not in case['hashes'] for h in case['new_hashes'])
@@ -455,7 +554,7 @@ def nontrivial(case, obs):
 
 
 def _hist_keys(case, obs):
-    keys = ['hist', 'hist:len:%d' % len(case['ops'])]
+    keys = ['hist', 'hist:len:%d' % len(case['ops']), 'hist:driver:%s' % case.get('driver', 'awgs')]
     if 'steps' not in obs:
         return keys + ['obs:crash']
     prev = None
@@ -477,7 +576,9 @@ def _hist_keys(case, obs):
 def histogram_keys(case, obs):
     if case['kind'] == 'hist':
         return _hist_keys(case, obs)
-    keys = ['place', 'slots:%s' % min(len(case['hashes']), 8), 'new:%s' % min(len(case['new_hashes']), 6),
+    if case['kind'] == 'prim':
+        return c19_prims.keys(case, obs)
+    keys = ['place', 'place:impl:%s' % case.get('impl', 'shared'), 'slots:%s' % min(len(case['hashes']), 8), 'new:%s' % min(len(case['new_hashes']), 6),
             'dtype:%s' % case.get('dtype', 'i8')]
     if 'ret' in obs:
         w, a, i = obs['ret']
@@ -492,6 +593,9 @@ def histogram_keys(case, obs):
             keys.append('has:amended')
         if len(set(case['new_hashes'])) < len(case['new_hashes']):
             keys.append('has:duplicate-new-hash')
+        if case.get('impl') == 'feature':
+            keys.append('place:feature:' + ('ties' if len(set(case['caps'])) < len(case['caps'])
+                                            or len(set(case['new_lens'])) < len(case['new_lens']) else 'tie-free'))
         free = [c for r, c in zip(case['refs'], case['caps']) if r == 0]
         if any(a) and any(c >= l for c in free for l, am in zip(case['new_lens'], a) if am):
             keys.append('has:amended-although-a-free-slot-could-fit')
@@ -503,9 +607,8 @@ def histogram_keys(case, obs):
 
 
 def classify(case, obs):
-    if case['kind'] == 'hist' and 'steps' in obs and hist_safe(case, obs) is None and hist_capacity(case, obs) \
-            and not hist_guard(case, obs):
-        return 'append-behind-freed-trailing-slots'
+    # no open findings: `append-behind-freed-trailing-slots` was repaired in /repo 4f02520 (a history that over-commits
+    # the memory is a VIOLATION again)
     return None
 
 
